@@ -120,6 +120,59 @@ class CvrpAdapter(envcorr.Adapter):
                 yield sol
 
 
+def float_fill_probe(ctx):
+    """Generic-stream probe (float32, the generator's own normalisation demand/capacity with the table
+    capacities 30/40/50 — not dyadic): drive the REAL env along customer orders whose integer demands fill the
+    vehicle exactly, or overfill it by one unit.  Exact integer arithmetic is the oracle: a customer whose
+    demand fits (sum <= C) must be offered (C05), one that does not (sum > C) must not (C01)."""
+    env = AD.make_env()
+    total = ctx.budget(150, 2000)
+    for g in range(total):
+        C = ctx.rng.choice([30, 40, 50])
+        over = ctx.rng.random() < 0.3
+        k = ctx.rng.randint(3, 8)
+        # k integer demands in 1..9 summing to C (+1 when `over`)
+        target = C + (1 if over else 0)
+        for _ in range(200):
+            d = [ctx.rng.randint(1, 9) for _ in range(k)]
+            if sum(d[:-1]) < target and 1 <= target - sum(d[:-1]) <= 9:
+                d[-1] = target - sum(d[:-1])
+                break
+        else:
+            continue
+        extra = [ctx.rng.randint(1, 9) for _ in range(ctx.rng.randint(0, 2))]
+        dem = d + extra
+        n = len(dem)
+        pts = geom.gen_points(ctx.rng, n + 1)
+        td0 = TensorDict({"locs": torch.tensor([geom.to_unit(pts[1:])], dtype=torch.float32),
+                          "depot": torch.tensor([geom.to_unit(pts[:1])[0]], dtype=torch.float32),
+                          "demand": torch.tensor([dem], dtype=torch.float32) / C}, batch_size=[1])
+        td = env.reset(td0)
+        used = 0
+        ctx.case(("cvrp-float", C, tuple(dem), over))
+        ctx.count(f"cvrp-float.C={C}.{'over' if over else 'exact'}")
+        for j in range(k):
+            offered = bool(td["action_mask"][0, j + 1])
+            fits = used + dem[j] <= C
+            if fits and not offered:
+                ctx.violation("cvrp:float32-exact-fill-hidden",
+                              "float32 rounding of demand/capacity hides a customer whose (integer) demand fits the vehicle exactly",
+                              {"capacity": C, "demands": dem, "served_in_order": list(range(1, j + 1)), "hidden_customer": j + 1,
+                               "used_units": used, "demand_units": dem[j]})
+                break
+            if not fits and offered:
+                ctx.violation("cvrp:float32-overload-admitted",
+                              "the real mask offers a customer whose demand overfills the vehicle",
+                              {"capacity": C, "demands": dem, "served_in_order": list(range(1, j + 1)), "customer": j + 1})
+                break
+            if not fits:
+                break
+            td.set("action", torch.tensor([j + 1]))
+            td = env.step(td)["next"]
+            used += dem[j]
+        ctx.sample({"probe": "cvrp-float", "capacity": C, "demands": dem, "over": over}, cap=2)
+
+
 AD = CvrpAdapter()
 MODEL_NOTE = ("CVRPEnv modelled per instance over integer ticks (Rl4co/Env/Cvrp.lean); coordinates→distance "
               "arithmetic and float32 rounding are outside the model (exact-stream instances make them exact)")
@@ -151,6 +204,9 @@ if os.path.exists(os.path.join(LEAN_DIR, "Rl4co/Props/C05/Cvrp.lean")):
               theorems=[Theorem("Rl4co.Cvrp.run_of_feasible", "proved",
                                 "every canonical Spec-feasible solution is a mask-confined finished run")],
               assumptions=[MODEL_NOTE]))
+  register(Unit("C05", "cvrp_float", float_fill_probe, drivers=[], lean_modules=[], theorems=[],
+                assumptions=["generic (float32) stream probe of the real CVRP mask at exact capacity fill with the generator's "
+                             "non-dyadic normalisation; oracle = exact integer arithmetic; no theorem: float32 is outside the model"]))
 if os.path.exists(os.path.join(LEAN_DIR, "Rl4co/Props/C06/Cvrp.lean")):
   register(Unit("C06", "cvrp", lambda ctx: envcorr.check_checker(ctx, AD),
               drivers=["drv_cvrp"], lean_modules=["Rl4co.Props.C06.Cvrp"],
